@@ -1,11 +1,11 @@
-"""Engine extensions used by contracts/c18_border.py (part of the trusted base -- every fact below is assumed).
+"""Engine extensions used by contracts/c18_border.py (part of the trusted base -- every fact marked ASSUMED is assumed).
 
-Vectorised numpy primitives of `grid_2d_util.relocated_grid_via_jit_from` / `grid_2d_centre_from`.  Each returns a fresh
-value defined by the minimal fact stated here; `n` is the length of the 1-D argument `a`.
+A. Vectorised numpy primitives of `grid_2d_util.relocated_grid_via_jit_from` / `grid_2d_centre_from`.  Each returns a
+   fresh value defined by the minimal fact stated here (ASSUMED); `n` is the length of the 1-D argument `a`.
 
 (1) np.add(x, y), np.subtract(x, y)       == x + y, x - y   (the engine's own scalar / element-wise reading of + and -).
 (2) np.sqrt(a) of an array                fresh r, same shape:   forall i:  r[i] == sqrt(a[i])
-                                          (sqrt is the engine's uninterpreted sqrt; its axioms stay opt-in, uses_math).
+                                          (sqrt is the engine's uninterpreted sqrt).
 (3) np.mean(a), a 1-D real array          obligation  n > 0  (numpy returns NaN for an empty array; R1 has no NaN)
                                           result: a constant m_a with   n * m_a == S_a(n),
                                           S_a(0) == 0,  forall k >= 0: S_a(k + 1) == S_a(k) + a[k].
@@ -19,46 +19,58 @@ value defined by the minimal fact stated here; `n` is the length of the 1-D argu
 (5) np.argmin(a), a 1-D array             obligation  n > 0
                                           result i:  0 <= i < n,  forall j in [0, n): a[i] <= a[j].
     (numpy additionally returns the FIRST minimal index; that tie rule is not assumed.)
-(7) opaque arithmetic with explicit unfold points (performance device; the DSL macros of contracts/c18_border.py and
-    the definitions below must agree -- engine C executes the macro bodies on every run):
-      sq18(x)  = x * x         mfac18(a, b) = a / b         mv18(c, m, p) = c + m * (p - c)         unf18(x) = x
-    are opaque macros (uninterpreted symbols for the prover).  Inside the contracts listed in OPAQUE_SQUARE np.square(x)
-    is read as sq18(x) (element-wise for arrays: fresh r, forall i: r[i] == sq18(a[i])), so the program's radii and
-    distances are identified with those of the specification by congruence + linear arithmetic.  The definitions are
-    opt-in axioms (uses_math) that fire only where a ghost assertion asks for them:
-      "sq18":        forall x {unf18(x)}:            unf18(x) == x  and  sq18(x) == x * x
-      "mfac18":      forall a, b {u_mfac18(a, b)}:   u_mfac18(a, b)  and  mfac18(a, b) == a / b
-      "mv18":        forall c, m, p {u_mv18(c, m, p)}: u_mv18(c, m, p)  and  mv18(c, m, p) == c + m * (p - c)
-    (u_* are marker predicates, `True` at run time), and the engine's sqrt axiom split in two:
-      "sqrt_nonneg": forall a {sqrt(a)}:             sqrt(a) >= 0
-      "sqrt_sq_at":  forall a {sqrt(unf18(a))}:      a >= 0  ->  sqrt(a) * sqrt(a) == a
-    Unfolding every square / quotient / square root everywhere drowns z3's non-linear solver.
-(8) (no new fact) the two quantified facts with which the engine defines a basic slice `a[lo:hi, c]` are re-stated with
-    their index arithmetic simplified (`0 + j` -> `j`, `c - 0` -> `c`): with the unsimplified offsets the forward
-    (trigger: slice element) and backward (trigger: source element) facts feed each other new index terms
-    `0 + t`, `(0 + t) - 0`, ... -- a matching loop that makes every obligation of a function with several column
-    slices slow.  Same bound variables, same body up to z3.simplify, same triggers.
-(9) (no new fact) row store `a[i, :] = v` of a 1-D array value into a 2-D array, ONLY inside the contracts listed in
+(6) full-array copy store  `a[:, :] = b`  (every index a bare `:`; a, b heap arrays / snapshots of equal rank >= 2 and
+    element type): obligations `shape-eq` per dimension; afterwards a[i, j] == b[i, j] for all i, j -- read, as numpy
+    does, as an element-wise copy of every element (b is snapshot at the time of the store).
+
+B. Opaque real arithmetic, ONLY inside the contracts listed in OPAQUE_ARITH (performance device, no new meaning).
+(7) Inside those contracts the non-linear operations of the PROGRAM are read as applications of uninterpreted symbols
+        np.square(x) -> sq18(x)       x * y (both non-constant reals) -> pmul18(x, y)       x / y (y non-constant) -> mfac18(x, y)
+    (element-wise for arrays; the `div` obligation  y != 0  is emitted as usual), and the contract's opaque macros
+        sq18(x) = x * x     mfac18(a, b) = a / b     mv18(c, m, p) = c + m * (p - c)
+    denote the same symbols, so program and specification meet by congruence + LINEAR arithmetic.  The meaning of the
+    symbols is given by the definitions (ASSUMED; they must agree with the macro bodies that engine C executes)
+        D1  sq18(x) == x * x        D2  pmul18(x, y) == x * y        D3  mfac18(a, b) == a / b
+        D4  mv18(c, m, p) == c + pmul18(m, p - c)
+        D5  sqrt(a) >= 0            D6  a >= 0  ->  sqrt(a) * sqrt(a) == a          (D5, D6: the engine's own sqrt axiom)
+    of which only D4 and D5 are handed to the solver as quantified axioms (uses_math "mv18", "sqrt_nonneg"; both are
+    linear over the symbols).  D1, D2, D3, D6 are used only inside the proofs of two LEMMAS, which are PROVED on every run
+    (obligations `lemma:c18.scale/direct`, `lemma:c18.mfac/direct`; hypotheses = instances of D1..D6 at the lemma's own
+    terms, every application of an uninterpreted symbol then replaced by a fresh constant -- a more general, purely
+    real-arithmetic statement that z3 decides by nlsat in milliseconds):
+        "scale"  forall c0, c1, p0, p1, rb {scale18(c0, c1, p0, p1, rb)}:
+                     with r = sqrt(sq18(p0 - c0) + sq18(p1 - c1)),  m = mfac18(rb, r):
+                     r > 0 and rb >= 0  ->  sqrt(sq18(mv18(c0, m, p0) - c0) + sq18(mv18(c1, m, p1) - c1)) == rb
+                 (scaling a vector by rb / r scales its length to rb)
+        "mfac"   forall a, b {mfac18(a, b)}:  b > 0  ->  (mfac18(a, b) < 1  <=>  a < b)  and  (a >= 0 -> mfac18(a, b) >= 0)
+    Marker predicates (`True` at run time; axioms "scale18", "rowmark18": forall x {mark(x)}: mark(x)) serve as triggers:
+    scale18(..) asks for the lemma "scale" at one tuple of terms; ins18(i) / out18(i) / bnd18(i) are the ONLY triggers of the
+    three per-coordinate clauses of the relocation rule, so that proving one clause for row i never instantiates the others;
+    wit18(b) is the ONLY trigger of "there is a nearest border point b such that ..." (exists b forall j): a refuted
+    `nearest` yields a Skolem index j(b) whose radius term would otherwise re-trigger the search for b (matching loop).
+    Why: with x * x, a / b and sqrt(a)^2 == a visible, z3's non-linear solver is consulted at every final check and the
+    obligations of this function (20 one-dimensional temporaries, nested quantifier alternation) time out erratically.
+
+C. Re-statements that add no fact.
+(8) the two quantified facts with which the engine defines a basic slice `a[lo:hi, c]` are re-stated with their index
+    arithmetic simplified (`0 + j` -> `j`, `c - 0` -> `c`; same bound variables, same body up to z3.simplify, same triggers).
+(9) row store `a[i, :] = v` of a 1-D array value into a 2-D array, ONLY inside the contracts listed in
     ROW_LEN = {contract key: n}: obligations  a.shape[1] == n  and  len(v) == n, then the n element stores
-    a[i, 0] = v[0], ..., a[i, n-1] = v[n-1]  -- the engine's own reading stores the array term v as ONE element of the
-    array-of-rows, which makes every 1-D array of the proof a potential array element and switches on pairwise
-    extensionality reasoning (measured: 170 `array-ext` index terms, 60 000 quantifier instances per obligation).
+    a[i, 0] = v[0], ..., a[i, n-1] = v[n-1]  (the engine's own reading stores the array term v as ONE element).
 (10) (drops an axiom, adds none) the obligations of the contracts listed in NO_ARRAY_EXT are sent to z3 with
     `smt.array.extensional=false`.  The engine models a 2-D array as an array of rows, so every 1-D temporary of a
     vectorised function has the sort of an array ELEMENT and z3 instantiates the extensionality axiom for every pair
     of them (measured here: ~170 `array-ext` index terms, each re-triggering every element-wise fact; 100 000
-    quantifier instances against 130 without).  No proof in these contracts needs to conclude that two arrays are equal
-    from their elements; without the axiom z3 proves at most what it proves with it.
-(6) full-array copy store  `a[:, :] = b`  (every index a bare `:`; a, b heap arrays / snapshots of equal rank >= 2 and
-    element type): obligations `shape-eq` per dimension; afterwards a[i, j] == b[i, j] for all i, j -- read, as numpy
-    does, as an element-wise copy of every element (b is snapshot at the time of the store).
+    quantifier instances per obligation against 130 without).  No proof in these contracts needs to conclude that two
+    arrays are equal from their elements; without the axiom z3 proves at most what it proves with it.
 """
 from __future__ import annotations
 import ast
+import os
 import z3
 
-from pyvc import calls
-from pyvc.engine import (Engine, Ref, Arr, OutsideSubset, I, R, toz, to_real, arr_sort, sort_kind, F_SQRT)
+from pyvc import calls, verify
+from pyvc.engine import (Engine, Ref, Arr, OutsideSubset, I, R, B, toz, to_real, arr_sort, sort_kind, is_z3, F_SQRT)
 
 
 def _mean_symbols(E, data, c, what):
@@ -109,7 +121,167 @@ def _nonempty(E, st, n, what):
         E.emit("%s-nonempty@%s" % (what, E.cur_line), st, toz(n) > 0, "index")
 
 
-# ---- (1) np.add / np.subtract
+# ------------------------------------------------------------------------------------------- B. opaque arithmetic
+OPAQUE_ARITH = set()
+F_SQ = z3.Function("macro.sq18", R, R)
+F_PMUL = z3.Function("macro.pmul18", R, R, R)
+F_MFAC = z3.Function("macro.mfac18", R, R, R)
+F_MV = z3.Function("macro.mv18", R, R, R, R)
+F_SCALE = z3.Function("macro.scale18", R, R, R, R, R, B)
+F_ROWMARK = [z3.Function("macro.%s18" % n, I, B) for n in ("ins", "out", "bnd", "wit")]
+
+
+def _definitions():
+    """D1..D6 as closed formulas (see the module docstring)"""
+    x, y, a, b, c, m, p = [z3.Real(n + "!d18") for n in "xyabcmp"]
+    return {
+        "D1": z3.ForAll([x], F_SQ(x) == x * x),
+        "D2": z3.ForAll([x, y], F_PMUL(x, y) == x * y),
+        "D3": z3.ForAll([a, b], F_MFAC(a, b) == a / b),
+        "D4": z3.ForAll([c, m, p], F_MV(c, m, p) == c + F_PMUL(m, p - c), patterns=[F_MV(c, m, p)]),
+        "D5": z3.ForAll([a], F_SQRT(a) >= 0, patterns=[F_SQRT(a)]),
+        "D6": z3.ForAll([a], z3.Implies(a >= 0, F_SQRT(a) * F_SQRT(a) == a)),
+    }
+
+
+def _instance(q, *terms):
+    return z3.substitute_vars(q.body(), *reversed(terms))
+
+
+def _abstract(formulas):
+    """replace every application of an uninterpreted function by a fresh constant (same symbol on syntactically equal
+    abstracted arguments -> same constant).  The abstracted problem is MORE general (it forgets congruence), so a proof
+    of it is a proof of the original; it is pure real arithmetic."""
+    cache, memo = {}, {}
+
+    def go(t):
+        i = t.get_id()
+        if i in memo:
+            return memo[i]
+        r = t
+        if z3.is_app(t) and t.num_args() > 0:
+            args = [go(ch) for ch in t.children()]
+            d = t.decl()
+            if d.kind() == z3.Z3_OP_UNINTERPRETED:
+                key = (d.name(), tuple(u.get_id() for u in args))
+                if key not in cache:
+                    cache[key] = (z3.FreshConst(t.sort(), "abs"), args)   # keep args alive: ids stay unique
+                r = cache[key][0]
+            else:
+                r = d(*args)
+        memo[i] = r
+        return r
+    return [go(f) for f in formulas]
+
+
+def _scale_terms(c0, c1, p0, p1, rb):
+    a_in = F_SQ(p0 - c0) + F_SQ(p1 - c1)
+    r = F_SQRT(a_in)
+    m = F_MFAC(rb, r)
+    o0, o1 = F_MV(c0, m, p0), F_MV(c1, m, p1)
+    a_out = F_SQ(o0 - c0) + F_SQ(o1 - c1)
+    return a_in, r, m, o0, o1, a_out, z3.Implies(z3.And(r > 0, rb >= 0), F_SQRT(a_out) == rb)
+
+
+def _mfac_body(a, b):
+    q = F_MFAC(a, b)
+    return z3.Implies(b > 0, z3.And((q < 1) == (a < b), z3.Implies(a >= 0, q >= 0)))
+
+
+def _lemmas(E):
+    """register the two proved lemmas with this engine run (same mechanism as the engine's counting lemma for np.sum:
+    the statement becomes available to the client proof only after its own obligation is discharged)"""
+    key = ("c18.lemmas",)
+    if key in E.spec_inst:
+        return
+    D = _definitions()
+    # ---- scale
+    c0, c1, p0, p1, rb = [E.fresh(n, R) for n in ("c0", "c1", "p0", "p1", "rb")]
+    a_in, r, m, o0, o1, a_out, body = _scale_terms(c0, c1, p0, p1, rb)
+    insts = [_instance(D["D1"], t) for t in (p0 - c0, p1 - c1, o0 - c0, o1 - c1)]
+    insts += [_instance(D["D3"], rb, r), _instance(D["D4"], c0, m, p0), _instance(D["D4"], c1, m, p1),
+              _instance(D["D2"], m, p0 - c0), _instance(D["D2"], m, p1 - c1)]
+    insts += [_instance(D[n], t) for n in ("D5", "D6") for t in (a_in, a_out)]
+    vs = [z3.Real(n + "!scale") for n in ("c0", "c1", "p0", "p1", "rb")]
+    scale_stmt = z3.ForAll(vs, _scale_terms(*vs)[-1], patterns=[F_SCALE(*vs)])
+    sp = _abstract(insts + [body])
+    # ---- mfac
+    a, b = E.fresh("a", R), E.fresh("b", R)
+    mp = _abstract([_instance(D["D3"], a, b), _mfac_body(a, b)])
+    av, bv = z3.Real("a!mfac"), z3.Real("b!mfac")
+    mfac_stmt = z3.ForAll([av, bv], _mfac_body(av, bv), patterns=[F_MFAC(av, bv)])
+    E.spec_inst[key] = {"f": None, "name": "c18", "axioms": [], "env": {}, "lemmas": [
+        {"name": "c18.scale", "parts": [("direct", sp[:-1], sp[-1])], "stmt": scale_stmt, "hints": [], "export": True, "spec": "c18"},
+        {"name": "c18.mfac", "parts": [("direct", mp[:-1], mp[-1])], "stmt": mfac_stmt, "hints": [], "export": True, "spec": "c18"}]}
+
+
+if not getattr(verify, "_c18_math", False):
+    _orig_math_axioms = verify.math_axioms
+
+    def _math_axioms():
+        d = dict(_orig_math_axioms())
+        D = _definitions()
+        v5 = [z3.Real(n + "!m18") for n in "abcde"]
+        iv = z3.Int("i!m18")
+        d["mv18"] = [D["D4"]]
+        d["sqrt_nonneg"] = [D["D5"]]
+        d["scale18"] = [z3.ForAll(v5, F_SCALE(*v5), patterns=[F_SCALE(*v5)])]
+        d["rowmark18"] = [z3.ForAll([iv], F(iv), patterns=[F(iv)]) for F in F_ROWMARK]
+        return d
+
+    verify.math_axioms = _math_axioms
+    verify._c18_math = True
+
+
+def _symbolic_real(v):
+    return is_z3(v) and v.sort() == R and not z3.is_rational_value(v) and not z3.is_algebraic_value(v)
+
+
+if not getattr(Engine, "_c18_opaque_binop", False):
+    _orig_binop = Engine.binop
+
+    def _binop(self, op, a, b, st, node=None):
+        if (self.c.key in OPAQUE_ARITH and isinstance(op, (ast.Mult, ast.Div))
+                and not isinstance(a, (Ref, Arr, tuple)) and not isinstance(b, (Ref, Arr, tuple))
+                and not type(a).__name__ == "Cplx" and not type(b).__name__ == "Cplx"):
+            ka, kb = sort_kind(a), sort_kind(b)
+            if ka in ("real", "int") and kb in ("real", "int") and "real" in (ka, kb):
+                ra = to_real(a) if is_z3(a) else a
+                rb = to_real(b) if is_z3(b) else b
+                if isinstance(op, ast.Mult) and _symbolic_real(ra) and _symbolic_real(rb):
+                    _lemmas(self)
+                    return F_PMUL(ra, rb)
+                if isinstance(op, ast.Div) and _symbolic_real(rb):
+                    if not self.spec_mode:
+                        self.need_nonzero(rb, st, node)
+                    _lemmas(self)
+                    return F_MFAC(to_real(a), rb)
+        return _orig_binop(self, op, a, b, st, node)
+
+    Engine.binop = _binop
+    Engine._c18_opaque_binop = True
+
+
+def _np_square(E, node, st):
+    if E.c.key not in OPAQUE_ARITH:
+        return _delegate("np.square", E, node, st)
+    _lemmas(E)
+    v = E.ev(node.args[0], st)
+    if isinstance(v, (Ref, Arr)):
+        a = E.deref(v, st)
+        if a.elem not in ("real", "int"):
+            raise OutsideSubset("np.square of a %s array" % a.elem)
+        idx = [E.fresh("i", I) for _ in a.shape]
+        out = Arr(E.fresh("sq", arr_sort("real", a.rank)), a.shape, "real")
+        st.pc.append(z3.ForAll(idx, E.select(out, idx) == F_SQ(to_real(E.select(a, idx))),
+                               patterns=[E.select(out, idx), E.select(a, idx)]))
+        rid = next(E.ids)
+        st.heap[rid] = out
+        return Ref(rid)
+    return F_SQ(to_real(v))
+
+
+# ------------------------------------------------------------------------------------------- A. numpy primitives
 def _np_add(E, node, st):
     return E.binop(ast.Add(), E.ev(node.args[0], st), E.ev(node.args[1], st), st, node)
 
@@ -118,7 +290,6 @@ def _np_subtract(E, node, st):
     return E.binop(ast.Sub(), E.ev(node.args[0], st), E.ev(node.args[1], st), st, node)
 
 
-# ---- (2) np.sqrt of an array
 def _np_sqrt(E, node, st):
     v, undo = _peek(E, node.args[0], st)
     if not isinstance(v, (Ref, Arr)):
@@ -136,16 +307,22 @@ def _np_sqrt(E, node, st):
     return Ref(rid)
 
 
-# ---- (3) np.mean
 def _is_full_slice(n):
     return isinstance(n, ast.Slice) and n.lower is None and n.upper is None and n.step is None
+
+
+def _mean_facts(E, st, m, S, n, elem_of):
+    k = E.fresh("k", I)
+    nm = F_PMUL(z3.ToReal(n), m) if E.c.key in OPAQUE_ARITH else z3.ToReal(n) * m
+    st.pc.append(z3.And(S(z3.IntVal(0)) == 0,
+                        z3.ForAll([k], z3.Implies(k >= 0, S(k + 1) == S(k) + elem_of(k)), patterns=[S(k + 1)]),
+                        nm == S(n)))
 
 
 def _np_mean(E, node, st):
     if len(node.args) != 1 or node.keywords:
         raise OutsideSubset("np.mean with axis / keywords")
     a0 = node.args[0]
-    k = E.fresh("k", I)
     if (isinstance(a0, ast.Subscript) and isinstance(a0.slice, ast.Tuple) and len(a0.slice.elts) == 2
             and _is_full_slice(a0.slice.elts[0]) and not isinstance(a0.slice.elts[1], ast.Slice)):
         base = E.ev(a0.value, st)
@@ -156,10 +333,7 @@ def _np_mean(E, node, st):
                 n = toz(X.shape[0])
                 _nonempty(E, st, n, "mean")
                 m, S = _mean_symbols(E, X.data, c, "colmean")
-                st.pc.append(z3.And(
-                    S(z3.IntVal(0)) == 0,
-                    z3.ForAll([k], z3.Implies(k >= 0, S(k + 1) == S(k) + z3.Select(z3.Select(X.data, k), c)), patterns=[S(k + 1)]),
-                    z3.ToReal(n) * m == S(n)))
+                _mean_facts(E, st, m, S, n, lambda k: z3.Select(z3.Select(X.data, k), c))
                 return m
     a = _arr1(E, E.ev(a0, st), st, "np.mean")
     if a.elem != "real":
@@ -167,14 +341,10 @@ def _np_mean(E, node, st):
     n = toz(a.shape[0])
     _nonempty(E, st, n, "mean")
     m, S = _mean_symbols(E, a.data, None, "mean")
-    st.pc.append(z3.And(
-        S(z3.IntVal(0)) == 0,
-        z3.ForAll([k], z3.Implies(k >= 0, S(k + 1) == S(k) + z3.Select(a.data, k)), patterns=[S(k + 1)]),
-        z3.ToReal(n) * m == S(n)))
+    _mean_facts(E, st, m, S, n, lambda k: z3.Select(a.data, k))
     return m
 
 
-# ---- (4) np.min / np.max of a 1-D array
 def _extreme(path, is_min):
     def h(E, node, st):
         if len(node.args) != 1 or node.keywords:
@@ -198,7 +368,6 @@ def _extreme(path, is_min):
     return h
 
 
-# ---- (5) np.argmin of a 1-D array
 def _np_argmin(E, node, st):
     if len(node.args) != 1 or node.keywords:
         raise OutsideSubset("np.argmin with axis / keywords")
@@ -215,52 +384,6 @@ def _np_argmin(E, node, st):
     return i
 
 
-# ---- (7) opaque square
-OPAQUE_SQUARE = set()
-F_SQ = z3.Function("macro.sq18", R, R)
-F_UNF = z3.Function("macro.unf18", R, R)
-F_MFAC = z3.Function("macro.mfac18", R, R, R)
-F_UMFAC = z3.Function("macro.u_mfac18", R, R, z3.BoolSort())
-F_MV = z3.Function("macro.mv18", R, R, R, R)
-F_UMV = z3.Function("macro.u_mv18", R, R, R, z3.BoolSort())
-
-
-def _np_square(E, node, st):
-    if E.c.key not in OPAQUE_SQUARE:
-        return _delegate("np.square", E, node, st)
-    v = E.ev(node.args[0], st)
-    if isinstance(v, (Ref, Arr)):
-        a = E.deref(v, st)
-        if a.elem not in ("real", "int"):
-            raise OutsideSubset("np.square of a %s array" % a.elem)
-        idx = [E.fresh("i", I) for _ in a.shape]
-        out = Arr(E.fresh("sq", arr_sort("real", a.rank)), a.shape, "real")
-        st.pc.append(z3.ForAll(idx, E.select(out, idx) == F_SQ(to_real(E.select(a, idx))),
-                               patterns=[E.select(out, idx), E.select(a, idx)]))
-        rid = next(E.ids)
-        st.heap[rid] = out
-        return Ref(rid)
-    return F_SQ(to_real(v))
-
-
-from pyvc import verify  # noqa: E402
-
-if not getattr(verify, "_c18_sq", False):
-    _orig_math_axioms = verify.math_axioms
-
-    def _math_axioms():
-        d = dict(_orig_math_axioms())
-        x, a, b, c, m, p = [z3.Real(n + "!c18") for n in "xabcmp"]
-        d["sq18"] = [z3.ForAll([x], z3.And(F_UNF(x) == x, F_SQ(x) == x * x), patterns=[F_UNF(x)])]
-        d["mfac18"] = [z3.ForAll([a, b], z3.And(F_UMFAC(a, b), F_MFAC(a, b) == a / b), patterns=[F_UMFAC(a, b)])]
-        d["mv18"] = [z3.ForAll([c, m, p], z3.And(F_UMV(c, m, p), F_MV(c, m, p) == c + m * (p - c)), patterns=[F_UMV(c, m, p)])]
-        d["sqrt_nonneg"] = [z3.ForAll([a], F_SQRT(a) >= 0, patterns=[F_SQRT(a)])]
-        d["sqrt_sq_at"] = [z3.ForAll([a], z3.Implies(a >= 0, F_SQRT(a) * F_SQRT(a) == a), patterns=[F_SQRT(F_UNF(a))])]
-        return d
-
-    verify.math_axioms = _math_axioms
-    verify._c18_sq = True
-
 calls.NP_EXT["np.square"] = _np_square
 calls.NP_EXT["np.add"] = _np_add
 calls.NP_EXT["np.subtract"] = _np_subtract
@@ -271,7 +394,7 @@ calls.NP_EXT["np.max"] = _extreme("np.max", False)
 calls.NP_EXT["np.argmin"] = _np_argmin
 
 
-# ---- (6) a[:, :] = b
+# ---- (6) a[:, :] = b      (9) a[i, :] = v as element stores
 def _full_copy_store(E, t, v, st):
     if not isinstance(t.value, ast.Name) or not isinstance(v, (Ref, Arr)):
         return False
@@ -375,7 +498,11 @@ if not getattr(verify, "_c18_noext", False):
     def _solve(hyps, goal, timeout_ms, ematch_only=False):
         if _current["key"] not in NO_ARRAY_EXT:
             return _orig_solve(hyps, goal, timeout_ms, ematch_only=ematch_only)
-        import os
+        tr = os.environ.get("C18_TRACE")
+        tracing = bool(tr) and tr in str(goal)[:300] and ematch_only
+        if tracing:
+            z3.set_param("trace", True)
+            z3.set_param("trace_file_name", "/var/tmp/z3trace.log")
         s = z3.Solver()
         s.set("timeout", timeout_ms)
         s.set("smt.array.extensional", False)
@@ -386,7 +513,19 @@ if not getattr(verify, "_c18_noext", False):
         for h in hyps:
             s.add(h)
         s.add(z3.Not(goal))
-        return s, s.check()
+        r = s.check()
+        if tracing:
+            z3.set_param("trace", False)
+        if os.environ.get("C18_STATS"):
+            st_ = s.statistics()
+            d = {k: st_.get_key_value(k) for k in st_.keys()}
+            if d.get("time", 0) > float(os.environ["C18_STATS"]):
+                print("C18_STATS", r, "ematch" if ematch_only else "mbqi", {k: d.get(k) for k in (
+                    "time", "quant instantiations", "max generation", "final checks", "array splits", "decisions", "conflicts",
+                    "arith-conflicts", "added eqs", "mk bool var", "arith-make-feasible", "arith-bound-propagations-lp")},
+                    str(goal)[:100].replace("\n", " "), flush=True)
+                open("/var/tmp/slow_%d.smt2" % int(d.get("time", 0) * 1000), "w").write(s.to_smt2())
+        return s, r
 
     verify.all_axioms = _all_axioms
     verify._solve = _solve
